@@ -199,6 +199,45 @@ def os_level(run, data, tmp, target, hexm=False):
         os.remove(src)
 
 
+def os_level_json(run, data, tmp, limit):
+    """real process: --json --clean with the size of the files it may write limited by the kernel (RLIMIT_FSIZE, as a quota or a
+    full disk would): whatever way the output is written, the input may only go when the whole document is in the output file"""
+    import resource
+    import signal
+    d = os.path.join(tmp, "fs_in")
+    o = os.path.join(tmp, "fs_out")
+    shutil.rmtree(d, ignore_errors=True)
+    shutil.rmtree(o, ignore_errors=True)
+    os.makedirs(d)
+    os.makedirs(o)
+    src = os.path.join(d, "pel_51000001")
+    with open(src, "wb") as f:
+        f.write(data)
+    want = pelgen.impl_decode(data, True)
+    if want["kind"] != "ok" or len(want["text"]) <= limit:
+        return
+
+    def pre():
+        signal.signal(signal.SIGXFSZ, signal.SIG_IGN)
+        resource.setrlimit(resource.RLIMIT_FSIZE, (limit, limit))
+    cmd = [common.PY, os.path.join(common.ROOT, cli_runner.PELTOOL), "-E", "-p", d, "-j", "-o", o, "--clean"]
+    p = subprocess.run(cmd, stdout=subprocess.PIPE, stderr=subprocess.PIPE, env=common.IMPL_ENV, timeout=60, preexec_fn=pre)
+    run.evaluations += 1
+    run.count("os:fsize")
+    alive = os.path.exists(src)
+    outs = os.listdir(o)
+    complete = False
+    if outs:
+        try:
+            complete = pelgen.first_diff(want["doc"], json.loads(open(os.path.join(o, outs[0])).read(), object_pairs_hook=OrderedDict)) is None
+        except Exception:  # noqa: BLE001
+            complete = False
+    if not alive and not complete:
+        run.violation("os:fsize", "peltool -j --clean under a file-size limit of %d bytes removed the PEL although its document (%d bytes) is not in the output file"
+                      % (limit, len(want["text"])), dict(kind="S", fn="os-level", target="fsize", limit=limit, rc=p.returncode,
+                                                          stderr=p.stderr.decode()[-300:], input_hex=data.hex()))
+
+
 def run(run, model, proof):
     rng = run.rng
     thorough = run.tier == "thorough"
@@ -260,6 +299,8 @@ def run(run, model, proof):
                         run.disagreements_checked += 1
                         run.violation("model:file-clean", "removed=%s differs from the model (%s)" % (not alive, m["removed"]),
                                       dict(rp, kind="M", correspondence="Model.Clean.file_prog vs main() --file", model=m), no_input=True)
+            for limit in (0, 1, 300, 700):
+                os_level_json(run, ins["ok"][0], tmp, limit)
             for target in ("devfull", "closedpipe"):
                 os_level(run, ins["ok"][0], tmp, target)
                 os_level(run, ins["ok"][0], tmp, target, hexm=True)
